@@ -812,10 +812,26 @@ class Stepper(Machine):
             v = self.ev(it.args[0], fr, st)
             if is_const(v) and isinstance(v[1], int):
                 total = v[1]
-        if total is None:
-            total = 1  # unknown iterable: one representative iteration
-        done = cnt[1] if cnt is not None else 0
         body, after = self.succ(n, "loop"), self.succ(n, "exhaust")
+        if total is None and isinstance(it, ast.Call) and (self.prog.qualify(self.func(fr.fq).module, dotted(it.func) or "") or "") == "itertools.count":
+            # never exhausted: the loop is left by break / return / an exception only (no iteration counter is kept: the state space stays finite)
+            fr2 = replace(fr, node=body.idx)  # type: ignore[union-attr]
+            for x in ast.walk(stmt.target):  # type: ignore[union-attr]
+                if isinstance(x, ast.Name):
+                    fr2 = fr2.set(x.id, U)
+            return [(self.put_th(st, who, self.with_top(t, fr2)), None)]
+        if total is None:
+            # unknown iterable: one representative iteration - only sound when the body takes no part in the protocol
+            f_ = self.func(fr.fq)
+            for c_ in [x for b_ in stmt.body for x in ast.walk(b_) if isinstance(x, ast.Call)]:  # type: ignore[union-attr]
+                if isinstance(c_.func, ast.Attribute) and c_.func.attr in ("put", "put_nowait", "get", "get_nowait", "join", "start", "policy", "learn", "step"):
+                    recv = src(c_.func.value).lower()
+                    if "queue" in recv or "thread" in recv or "agent" in recv or "env" in recv:
+                        raise AnalysisError(f"{self.loc(fr)}: a loop over `{src(it)[:40]}` (unknown number of iterations) contains the protocol operation `{src(c_.func)[:40]}`")
+                if any(isinstance(t_, FuncInfo) and t_.qualname in self.m.relevant and t_.qualname != f_.qualname for t_ in self.prog.resolve_call(f_, c_)):
+                    raise AnalysisError(f"{self.loc(fr)}: a loop over `{src(it)[:40]}` (unknown number of iterations) calls `{src(c_.func)[:40]}`, which takes part in the thread protocol")
+            total = 1
+        done = cnt[1] if cnt is not None else 0
         if done < total:
             fr2 = replace(fr, node=body.idx).set(key, K(done + 1))  # type: ignore[union-attr]
             for x in ast.walk(stmt.target):  # type: ignore[union-attr]
